@@ -51,16 +51,21 @@ CLAIMS["C06"] = dict(
 CLAIMS["C20"] = dict(
    text="The clean-up code of every secret-handling function (hash/HMAC *_Final, AES key free in both layouts, AES-CTR free, the "
         "BIGNUM ladder of blinded_modexp, the aws_readkeys error ladder) is TRANSLATED from the current source into a small statement "
-        "language on every run; Lean gives it a semantics (abstract interpreter enumerating all 21 exit paths of blinded_modexp with "
-        "live/tainted tracking; dominance of every free() by a whole-block zeroing; last-touch analysis of context objects) and the "
-        "kernel decides the wipe property on the regenerated program, independent of any key, message, private or blinding value. "
-        "General theorems state what a 'true' verdict means for any program. The real code is then observed in an -O2 build: context "
-        "bytes after Final, block contents at free() (link-time wrappers), BIGNUM limbs at release (CRYPTO_set_mem_functions) with "
-        "failure of the k-th OpenSSL allocation injected to walk every rung of the error ladder.",
-   note=PROOF_NOTE + "Trusted in addition: tools/extractors/c20.py (C statement-shape translator, ~250 lines); OpenSSL's BN_clear_free cleanses (observed, not modelled); "
-        "compiler elision of insecure_memzero is observed in one -O2 build only; stack/register copies and blocks freed by libc itself (stdio) are outside the statement.",
-   technique="Lean 4 decision over a model regenerated from source by a translator (abstract interpretation of clean-up code) + runtime observation with fault injection",
-   design_ref="5/C20")
+        "language on every run, one program per preprocessor configuration (HWACCEL on/off, AES-NI, ARM) with the run-time dispatch "
+        "branches kept and static helpers inlined; Lean gives it a semantics (abstract interpreter enumerating all exit paths of "
+        "blinded_modexp - 21 today - with live/tainted tracking; dominance of every free() by a whole-block zeroing whose size "
+        "expression, resolved through declared types, equals the allocation's; last-touch analysis of context objects; no call in "
+        "aws_readkeys that may move a line buffer inside libc) and the kernel decides the wipe property on the regenerated program for "
+        "every configuration, independent of any key, message, private or blinding value (17 obligations). General theorems state what "
+        "a 'true' verdict means for any program. The real code is then observed: in an -O2 build (context bytes after Final, block "
+        "contents at free(), BIGNUM limbs at release with failure of the k-th OpenSSL allocation injected to walk every rung of the "
+        "error ladder), in a sanitizer build whose free hook sees every block released by anyone, libc included, and in the AES-NI "
+        "build with the software path forced; insecure_memzero itself is checked exactly for every alignment and length.",
+   note=PROOF_NOTE + "Trusted in addition: tools/extractors/c20.py (C statement-shape translator with a small preprocessor, ~600 lines); OpenSSL's BN_clear_free "
+        "cleanses (observed, not modelled); compiler elision of insecure_memzero is observed in one -O2 build only; stack/register copies and the key file's "
+        "stdio buffer (released inside fclose) are outside the statement.",
+   technique="Lean 4 decision over a model regenerated from source by a translator (abstract interpretation of clean-up code, per configuration) + runtime observation with fault injection",
+   design_ref="5/C20, 12.2")
 
 CLAIMS["C01"] = dict(
    text="Machine-checked Lean 4 theorems (29) about executable models that follow sha256.c / sha1.c / md5.c / crc32c.c / the HMAC and "
@@ -92,8 +97,9 @@ CLAIMS["C04"] = dict(
 CLAIMS["C05"] = dict(
    text="Machine-checked Lean 4 theorems about the same executable model of the event loop as C04: the 32 immediate queues with minq "
         "refine one stable priority queue (lowest priority number first, FIFO within a priority, re-registration from a callback goes "
-        "to the tail); the poll timeout is the ceiling in ms of the time to the nearest timer, recomputed from the remaining time after "
-        "EINTR (the F11 repair); and for EVERY program and environment the model's trace is accepted by the executable C05 monitor "
+        "to the tail); the poll timeout never exceeds the ceiling in ms of the time to the nearest timer deadline, equals it below the "
+        "saturation point of poll's int argument and is 0 exactly when the deadline has passed, also when recomputed from the remaining "
+        "time after EINTR (the F11 and F12 repairs); and for EVERY program and environment the model's trace is accepted by the executable C05 monitor "
         "(a pending immediate before any ready socket before any expired timer; timers in deadline order; a call that starts with "
         "something runnable runs a callback, otherwise blocks no longer than the earliest deadline and runs what woke it; the first "
         "non-zero status or an interrupt request stops dispatching and events not yet run stay registered), closed over the proved timer-queue contract. Tie: the monitor judges the real event loop's trace "
@@ -138,7 +144,8 @@ def from_notes(pid):
             level = " ".join(body.strip().strip('"`').split())
             level = re.sub(r"^category\s+[`\"]*proof[`\"]*[.;]?\s*(text:)?\s*", "", level)
             level = re.sub(r"^[`\"]*proof[`\"]*\s*[—-]+\s*", "", level)
-            level = level.strip('"`')
+            level = re.sub(r"^[`\"]*proof[`\"]*\s+for\b", "Proof for", level)
+            level = level.strip('"`').replace("**", "")
         if re.search(r"trusted|not verified|not covered|modelled rather", head, re.I) and trusted is None:
             trusted = " ".join(body.strip().split())
     if not level:
